@@ -188,6 +188,8 @@ def run_proc(rule, fn, tframe, bases, fr, nxt, label, body=None, env=None):
     seen = {}
     env = dict(env or {})
     body = body or fn["body"]
+    # corner offsets named with `let` (`let xi = X * i;`) are read at their uses
+    body = A.value_view(body)
     try:
         for kind, blk, e2, loops in expand_loops(body, env):
             b = calls_outside(blk, loops) if kind == "outside" else blk
